@@ -1008,10 +1008,51 @@ class UniformTime(np.ndarray, TimeInterface):
     # unit and give whole base units, exactly as TimeArray does (without
     # these, ``t + 1`` on a millisecond axis added one picosecond):
     _convert_if_needed = TimeArray._convert_if_needed
-    __add__ = TimeArray.__add__
-    __sub__ = TimeArray.__sub__
-    __radd__ = TimeArray.__radd__
-    __rsub__ = TimeArray.__rsub__
+
+    def _as_base_time(self, val):
+        # the operand as a time object in the base unit (bare numbers are
+        # read in the unit of this axis, as TimeArray arithmetic does)
+        if not hasattr(val, '_conversion_factor'):
+            val = np.asarray(self._convert_if_needed(val)).view(TimeArray)
+            val.convert_unit(base_unit)
+        return val
+
+    # The sum/difference of a uniform axis and a shift (or a uniform ramp) is
+    # again a uniform axis: the operation is done in place on a copy, so that
+    # t0, sampling_interval, sampling_rate and duration describe the new
+    # samples (inherited unchanged from self they would describe the old
+    # ones, and time lookups on the result would be wrong).  With any other
+    # operand the result is not uniform: an ordinary array of times.
+    def __add__(self, val):
+        val = self._as_base_time(val)
+        out = self.copy()
+        try:
+            out += val
+        except ValueError:
+            return TimeArray(self) + val
+        return out
+
+    __radd__ = __add__
+
+    def __sub__(self, val):
+        val = self._as_base_time(val)
+        out = self.copy()
+        try:
+            out -= val
+        except ValueError:
+            return TimeArray(self) - val
+        return out
+
+    def __rsub__(self, val):
+        val = self._as_base_time(val)
+        out = self.copy()
+        try:
+            out -= val
+        except ValueError:
+            return np.ndarray.__rsub__(TimeArray(self), np.asarray(val))
+        out *= -1
+        return out
+
     __lt__ = TimeArray.__lt__
     __gt__ = TimeArray.__gt__
     __le__ = TimeArray.__le__
